@@ -51,16 +51,22 @@ def matching_time_indices(stamps_1: np.ndarray, stamps_2: np.ndarray,
     :param offset_2: optional time offset to be applied to stamps_2
     :return: 2 lists of the matching timestamp indices (stamps_1, stamps_2)
     """
-    matching_indices_1 = []
-    matching_indices_2 = []
     stamps_2 = copy.deepcopy(stamps_2)
     stamps_2 += offset_2
+    # index_2 -> (diff, index_1): a stamp of stamps_2 is matched at most once,
+    # with the closest (on equal distance: the first) stamp of stamps_1.
+    best_matches: typing.Dict[int, typing.Tuple[float, int]] = {}
     for index_1, stamp_1 in enumerate(stamps_1):
         diffs = np.abs(stamps_2 - stamp_1)
         index_2 = int(np.argmin(diffs))
-        if diffs[index_2] <= max_diff:
-            matching_indices_1.append(index_1)
-            matching_indices_2.append(index_2)
+        diff = diffs[index_2]
+        if diff <= max_diff and (index_2 not in best_matches
+                                 or diff < best_matches[index_2][0]):
+            best_matches[index_2] = (diff, index_1)
+    matches = sorted(
+        (index_1, index_2) for index_2, (_, index_1) in best_matches.items())
+    matching_indices_1 = [match[0] for match in matches]
+    matching_indices_2 = [match[1] for match in matches]
     return matching_indices_1, matching_indices_2
 
 
